@@ -25,6 +25,8 @@ def make_cases(rng, n):
             base_cfg['ignore_ns'] = [RDF] if ip == RDF_TYPE else [EX]
             base_cfg['remove_empty'] = True
             base_cfg['inverse'] = rng.random() < 0.7
+        if rng.random() < 0.25:
+            g = list(dict.fromkeys(gen.spice_literals(rng, g)))      # awkward but legal lexical forms: the value class is the datatype, whatever the text
         ths = gen.threshold_grid(g, ip)
         for th in rng.sample(ths, min(3, len(ths))):
             c = dict(base_cfg)
